@@ -49,7 +49,7 @@ package types
 //@   ensures knownUnit(unit)
 //@   // a whole number of seconds is represented exactly (so DurationFromUnits gives it back, without overflow)
 //@   ensures duration % 1000000000 == 0 ==> unitNs(unit) * value == duration
-//@   prop C12
+//@   prop C12 C20
 //@ func ConvertVestingTypesToGenesisVestingTypes(vestingTypes) (res)
 //@   requires vestingTypes != nil
 //@   requires forall i: int :: {vestingTypes.VestingTypes[i]} 0 <= i && i < len(vestingTypes.VestingTypes) ==> vestingTypes.VestingTypes[i] != nil
@@ -58,7 +58,7 @@ package types
 //@     && knownUnit(res[i].LockupPeriodUnit) && knownUnit(res[i].VestingPeriodUnit)
 //@     && (vestingTypes.VestingTypes[i].LockupPeriod % 1000000000 == 0 ==> unitNs(res[i].LockupPeriodUnit) * res[i].LockupPeriod == vestingTypes.VestingTypes[i].LockupPeriod)
 //@     && (vestingTypes.VestingTypes[i].VestingPeriod % 1000000000 == 0 ==> unitNs(res[i].VestingPeriodUnit) * res[i].VestingPeriod == vestingTypes.VestingTypes[i].VestingPeriod)
-//@   prop C12
+//@   prop C12 C20
 //@ loop ConvertVestingTypesToGenesisVestingTypes#1
 //@   invariant 0 <= \i && \i <= len(vestingTypes.VestingTypes) && len(gVestingTypes) == \i && off(gVestingTypes) == 0
 //@   invariant forall i: int :: {gVestingTypes[i].Name} 0 <= i && i < \i ==> gVestingTypes[i].Name == vestingTypes.VestingTypes[i].Name && gVestingTypes[i].Free == vestingTypes.VestingTypes[i].Free
